@@ -7,16 +7,6 @@ for the normal form. -/
 namespace Holpy.C10.IntN
 open IExp
 
-/-- every atom is the table entry of its rank, no exponent is `0` -/
-def wfI (sh : Nat → Nat) : IExp → Bool
-  | .atom i s => s == sh i
-  | .num _ => true
-  | .add a b => wfI sh a && wfI sh b
-  | .sub a b => wfI sh a && wfI sh b
-  | .mul a b => wfI sh a && wfI sh b
-  | .neg a => wfI sh a
-  | .pow b e => (e != 0) && wfI sh b
-
 theorem multAtom_wf (sh : Nat → Nat) (p c : IExp) (hp : wfI sh p = true) (hc : wfI sh c = true) :
     wfI sh (multAtom p c) = true := by
   fun_induction multAtom p c <;> simp_all [wfI] <;> omega
